@@ -143,7 +143,7 @@ class C16(Prop):
     case_imports = ["Moc.Msg", "Moc.Handlers"]
     harness_bin = "sql"
     harness_sub = "c16"
-    sizes = {"quick": 3000, "thorough": 18000}
+    sizes = {"quick": 2500, "thorough": 18000}
     max_reports = 1
     gen_names = ("g_event_type", "g_created_key_lt", "g_add_keep_old", "g_over_cap", "g_add_skip_ephemeral",
                  "g_add_blocked", "g_is_kind5", "g_del_is_kind5", "g_del_other_author", "g_k5_tag_short",
